@@ -22,7 +22,7 @@ def _trace(w):
 
 
 def _abstract_add(w, event, triggered, ray_paths, polarizations):
-    has_det = hasattr(w, '_detector')
+    has_det = bool(getattr(w, 'has_detector', False)) and hasattr(w, '_h5trace_det')
     try:
         np_ = len(event)
     except TypeError:
@@ -44,7 +44,7 @@ def _abstract_add(w, event, triggered, ray_paths, polarizations):
     nw = 0
     if has_det:
         try:
-            nw = max(len(a.all_waveforms) for a in w._detector)
+            nw = max(len(a.all_waveforms) for a in w._h5trace_det)
         except Exception:
             nw = 0
     trig = False
@@ -74,7 +74,7 @@ def _abstract_add(w, event, triggered, ray_paths, polarizations):
     else:
         nr = max([len(x) for x in ray_paths], default=0)
         if has_det:
-            n_det = len(w._detector)
+            n_det = len(w._h5trace_det)
             if len(ray_paths) != n_det or len(polarizations) != n_det or \
                     any(len(a) != len(b) for a, b in zip(ray_paths, polarizations)):
                 rays = 'badshape'
@@ -117,13 +117,28 @@ def pytest_configure(config):
     W = io.HDF5Writer
     orig = {k: getattr(W, k) for k in ('__init__', 'open', 'close', 'set_detector', 'add', 'add_analysis_indices')}
 
+    import inspect
+    sig = inspect.signature(orig['__init__'])
+
     def init(self, *a, **kw):
         orig['__init__'](self, *a, **kw)
+        # the options as documented, from the constructor's own arguments (no private state of the writer is read)
+        ba = sig.bind(self, *a, **kw)
+        ba.apply_defaults()
+        arg = ba.arguments
+        write = {k: bool(arg.get('write_' + k, False)) for k in KINDS}
+        rt = arg.get('require_trigger', True)
+        if isinstance(rt, bool):
+            trig_only = {k: (rt and k not in ('particles', 'triggers', 'antenna_triggers')) for k in KINDS}
+        else:
+            keys = [rt] if isinstance(rt, str) else list(rt)
+            trig_only = {k: (k in keys) for k in KINDS}
         _serial[0] += 1
         self._h5trace_serial = _serial[0]
-        _traces[_serial[0]] = {'file': self.filename, 'mode': self._mode,
-                             'options': {'write': [k for k in KINDS if self._write_data[k]],
-                                         'trigOnly': [k for k in KINDS if self._trig_only[k]]},
+        self._h5trace_mode = arg.get('mode', 'x')
+        _traces[_serial[0]] = {'file': self.filename, 'mode': self._h5trace_mode,
+                             'options': {'write': [k for k in KINDS if write[k]],
+                                         'trigOnly': [k for k in KINDS if trig_only[k]]},
                              'events': []}
 
     def open_(self):
@@ -131,7 +146,7 @@ def pytest_configure(config):
         orig['open'](self)
         t = _trace(self)
         if t is not None:
-            fresh = self._mode in ('w', 'x') or not existed
+            fresh = self._h5trace_mode in ('w', 'x') or not existed
             t['events'].append({'ev': 'Open', 'fresh': bool(fresh)})
             if not fresh:
                 t['continues'] = True
@@ -148,6 +163,7 @@ def pytest_configure(config):
 
     def set_detector(self, detector):
         orig['set_detector'](self, detector)
+        self._h5trace_det = detector
         t = _trace(self)
         if t is not None:
             t['events'].append({'ev': 'SetDetector', 'n': len(detector)})
